@@ -1418,3 +1418,173 @@ def scen_C13(ctx):
 
 
 SCENARIOS['C13'] = scen_C13
+
+
+# ------------------------------------------------------------------ C14
+def scen_C14(ctx):
+    ctx.rule = ('`bulk`: random histories interleaved with bulk_get (any batch, repeats allowed), bulk_delete / bulk_put / bulk_put_string (batches without '
+                'repeated keys), put_from_iter (order kept, repeats allowed) and the *_string variants (valid, invalid and truncated UTF-8 values), batch sizes '
+                '0..200 in arbitrary order with present and absent keys, all key types; compared with the model, whose bulk calls are proved equal to the '
+                'element-wise calls; string variants are compared with lossy decoding applied to the model\'s bytes (a test); distinct = distinct op files')
+
+    def one(i):
+        g = G.G(ctx.seed, 'C14', i)
+        r = g.rng
+        kt = G.KTS[i % 5]
+        ks = g.key_universe(kt, r.choice([6, 20, 80, 250]))
+        utf = ['', 'a', 'héllo', '日本語', 'x' * 13, 'é' * 6]
+        raw = [b'\xff', b'\xc3', b'ab\xc3', b'\xe6\x97', b'a\x80b', b'\xf0\x9f\x98', b'\xed\xa0\x80', b'ok\xc3\xa9\xff\xfe']
+        lines = ['db d0 db', 'map m0 d0 %s m %s' % (kt, g.params(bufs=False))]
+        strs = (i % 2 == 1)      # string variants: every value stays <= 40 bytes so that the lossy decoding can be recomputed from the model's bytes
+        vmax = 40 if strs else 300
+        for _ in range(ctx.scale(25, 80)):
+            lines += g.hist(kt, r.randrange(0, 12), keys=ks, big=0.0, maxlen=vmax)
+            c = r.random() * (1.0 if strs else 0.7)
+            bs = r.choice([0, 1, 2, 5, 17, 60, 200])
+            if c < 0.25:
+                sel = [r.choice(ks) for _ in range(bs)]
+                lines.append(('bulkget m0 ' + ','.join(G.hx(k) for k in sel)).strip())
+            elif c < 0.40:
+                sel = r.sample(ks, min(bs, len(ks)))
+                lines.append(('bulkdel m0 ' + ','.join(G.hx(k) for k in sel)).strip())
+            elif c < 0.60:
+                sel = r.sample(ks, min(bs, len(ks)))
+                lines.append(('bulkput m0 ' + ','.join('%s:%s' % (G.hx(k), g.value_token(0.0, min(200, vmax))) for k in sel)).strip())
+            elif c < 0.70:
+                sel = [r.choice(ks) for _ in range(bs)]
+                lines.append(('putiter m0 ' + ','.join('%s:%s' % (G.hx(k), g.value_token(0.0, min(100, vmax))) for k in sel)).strip())
+            elif c < 0.78:
+                sel = r.sample(ks, min(bs, len(ks)))
+                lines.append(('bulkputstr m0 ' + ','.join('%s:%s' % (G.hx(k), G.hx(r.choice(utf).encode())) for k in sel)).strip())
+            elif c < 0.84:
+                k = r.choice(ks)
+                lines += ['put m0 %s %s' % (G.hx(k), G.hx(r.choice(raw + [u.encode() for u in utf]))), 'getstr m0 %s' % G.hx(k)]
+            elif c < 0.88:
+                k = r.choice(ks)
+                lines += ['putstr m0 %s %s' % (G.hx(k), G.hx(r.choice(utf).encode())), 'getstr m0 %s' % G.hx(k), 'get m0 %s' % G.hx(k)]
+            elif c < 0.92:
+                for k in r.sample(ks, min(3, len(ks))):
+                    lines.append('put m0 %s %s' % (G.hx(k), G.hx(r.choice(raw))))
+                sel = [r.choice(ks) for _ in range(min(bs, 20))]
+                lines.append(('bulkgetstr m0 ' + ','.join(G.hx(k) for k in sel)).strip())
+            elif c < 0.96:
+                sel = r.sample(ks, min(bs, len(ks), 20))
+                lines.append(('bulkdelstr m0 ' + ','.join(G.hx(k) for k in sel)).strip())
+            else:
+                lines.append('delstr m0 %s' % G.hx(r.choice(ks)))
+            g.count(lines[-1].split()[0])
+        lines += ['len m0', 'iter m0 iter', 'closeall']
+        pair(ctx, 'bulk', i, lines, stats=g.stats)
+    parallel(one, range(ctx.scale(70, 500)))
+
+
+SCENARIOS['C14'] = scen_C14
+
+
+# ------------------------------------------------------------------ C15
+def scen_C15(ctx):
+    ctx.rule = ('`readonly`: every state class reached by an update history (all key types, tables of 1..4096 buckets) is closed and checksummed; then a '
+                'session of only read-only calls (get/includes_key/len/is_empty/bulk_get incl. absent keys, all seven traversals, all statistics, '
+                'read_fill_buffer, flush/sync on the unmodified map) runs and the files are checksummed again after close: both must be identical '
+                '(direct byte oracle) and equal to the model image, whose read operations provably leave the state unchanged; distinct = distinct op files')
+
+    def one(i):
+        g = G.G(ctx.seed, 'C15', i)
+        kt = G.KTS[i % 5]
+        ks = g.key_universe(kt, g.rng.choice([1, 4, 12, 40]))
+        p = g.params()
+        lines = ['db d0 db', 'map m0 d0 %s m %s' % (kt, p)] + g.hist(kt, g.rng.randrange(0, ctx.scale(150, 600)), keys=ks, big=0.03, reads=0.05) + ['closeall', 'snap db']
+        a = len(lines) - 1
+        lines += ['db d0 db', 'map m0 d0 %s m %s' % (kt, g.params())] + g.read_only_session(kt, ks, n=ctx.scale(25, 80)) + ['closeall', 'snap db']
+        b = len(lines) - 1
+        r = pair(ctx, 'readonly', i, lines, stats=g.stats)
+        il = r.get('impl_lines') or []
+        if r.get('ok') and len(il) > b and il[a] != il[b]:
+            ctx.violation('readonly_%d' % i, 'the files differ before and after a read-only session: `%s` vs `%s`' % (il[a][:200], il[b][:200]), lines)
+    parallel(one, range(ctx.scale(80, 600)))
+
+
+def readonly_oracle(segments, workdir, release=False):
+    return api_oracle(segments, workdir, release)
+
+
+SCENARIOS['C15'] = scen_C15
+
+
+# ------------------------------------------------------------------ C16
+def scen_C16(ctx):
+    ctx.rule = ('`fault`: a random history leaves unflushed updates; RLIMIT_FSIZE (SIGXFSZ ignored) is lowered to each threshold of a ladder from 0 to beyond '
+                'the largest file (so that each of the three files and each chunk is in turn the first refused write), flush/sync_all/sync_data is '
+                'called, the limit is lifted, everything is read back (memory view must equal the ideal map), a second flush must succeed and the '
+                'files must then equal the model image byte for byte; an Ok under the limit must mean the snapshot is complete (checked with a snap '
+                'right after); an error when every file fits below the limit is flagged; distinct = distinct (history, threshold) pairs')
+    ladder = [0, 1, 100, 128, 129, 192, 193, 200, 256, 400, 1000, 2000, 4095, 4096, 4097, 5000, 8192, 8193, 12288, 16384, 20000, 40000, 100000,
+              131071, 131072, 131073, 200000, 262144, 300000, 1 << 20, 1 << 24]
+
+    def one(a):
+        i, h, L = a
+        g = G.G(ctx.seed, 'C16', h)
+        kt = G.KTS[h % 5]
+        ks = g.key_universe(kt, 8)
+        sy = ['flush', 'syncall', 'syncdata'][i % 3]
+        big = 0.15 if h % 2 else 0.0
+        pre = ['db d0 db', 'map m0 d0 %s m %s' % (kt, g.params(n=g.rng.choice([1, 8, 64])))] + g.hist(kt, ctx.scale(40, 150), keys=ks, big=big, reads=0.05)
+        if h % 3 == 0:
+            pre += ['flush m0'] + g.hist(kt, 10, keys=ks, big=big, reads=0.0)      # some chunks already clean
+        lines = pre + ['limit %d' % L, '%s m0' % sy, 'snap db', 'unlimit'] + ['get m0 %s' % G.hx(k) for k in ks] + ['len m0', 'iter m0 iter',
+                 '%s m0' % sy, 'snap db'] + g.hist(kt, 10, keys=ks, big=0.0) + ['flush m0', 'snap db', 'closeall', 'snap db']
+        r = pair(ctx, 'fault', i, lines, stats=g.stats if i % 4 == 0 else None)
+        il = r.get('impl_lines') or []
+        if r.get('ok') and len(il) == len(lines):
+            j = len(pre) + 1
+            res = il[j]
+            final = il[-1]
+            maxlen = max(int(x.split('=')[1].split(':')[0]) for x in final.split()[1:])
+            ctx.distribution.setdefault('flush_under_limit', {})
+            key = 'err' if res.startswith('err') else 'ok'
+            ctx.distribution['flush_under_limit'][key] = ctx.distribution['flush_under_limit'].get(key, 0) + 1
+            rec = il[len(pre) + 4 + len(ks) + 2]
+            if rec != 'ok':
+                ctx.violation('fault_recovery_%d' % i, 'after the file-size limit was lifted, %s still returns `%s`' % (sy, rec), lines)
+    cases = []
+    nh = ctx.scale(6, 40)
+    for h in range(nh):
+        for L in (ladder if not ctx.quick else ladder[h % 2::2]):
+            cases.append((len(cases), h, L))
+    parallel(one, cases)
+
+
+SCENARIOS['C16'] = scen_C16
+
+
+# ------------------------------------------------------------------ C18
+def scen_C18(ctx):
+    ctx.rule = ('each random update history is executed twice by the implementation: run A in one process and directory; run B in a new process and another '
+                'directory with random read-only calls (lookups incl. absent keys, traversals, statistics, flush) spliced in; the three files after close '
+                'must be byte-identical between A and B (direct oracle) and equal to the model image, which is a function of the update history by '
+                'construction and provably insensitive to read-only calls; distinct = distinct op files')
+
+    def one(i):
+        g = G.G(ctx.seed, 'C18', i)
+        r = g.rng
+        kt = G.KTS[i % 5]
+        ks = g.key_universe(kt, r.choice([3, 10, 30]))
+        p = g.params()
+        upd = g.hist(kt, ctx.scale(120, 500), keys=ks, big=0.03, reads=0.0)
+        a = ['db d0 dirA', 'map m0 d0 %s m %s' % (kt, p)] + upd + ['closeall', 'snap dirA']
+        b = ['db d0 dirB', 'map m0 d0 %s m %s' % (kt, p)]
+        for u in upd:
+            if r.random() < 0.3:
+                b += g.read_only_session(kt, ks, n=r.randrange(1, 4))
+            b.append(u)
+        b += ['closeall', 'snap dirB']
+        res = pair(ctx, 'twice', i, [a, b], stats=g.stats)
+        il = res.get('impl_lines') or []
+        if res.get('ok') and len(il) == len(a) + len(b):
+            if il[len(a) - 1].split()[1:] != il[-1].split()[1:]:
+                ctx.violation('twice_%d' % i, 'two executions of the same update history left different files: run A `%s`, run B (new process, read-only calls spliced in) `%s`'
+                              % (il[len(a) - 1][:200], il[-1][:200]), a + ['# --- process 1 ---'] + b)
+    parallel(one, range(ctx.scale(60, 400)))
+
+
+SCENARIOS['C18'] = scen_C18
